@@ -75,6 +75,11 @@ CHECKS["C05"] = ("exploration",
   "For every enumerated program the real type checker decides acceptance; every accepted program must compile each of its pub fns without an internal panic into a circuit that passes validate(), has one input party per parameter (per element for a single array parameter) of exactly size(type) bits and 161 + size(return type) outputs that decode to the declared type; fully suffixed in-range instances and all programs of families E, S, P, D must be accepted.",
   "Sizes come from the harness's own size_of. Rejecting a not fully suffixed program is never a violation.", "DESIGN.md §4 C05")
 
+CHECKS["C07"] = ("exploration",
+  "exhaustive enumeration of single-token perturbations (every prefix, deletion, duplication, swap, substitution at every position) of a corpus, all short token strings and all short byte strings, each run through the real front end in an isolated worker with deadline and memory limit",
+  "Every perturbation of every corpus program (repository examples, documentation code blocks, generated programs, a hand-written program using every syntactic form), every token string up to length L over a 37-token alphabet, every byte string up to length 2 over a 103-byte alphabet and the same perturbations of literal strings are pushed through scan + parse + type check + compile of every pub fn + Error::prettify in a separate process; the oracle is: terminates within the deadline, no panic or abort, error lists non-empty, every location has start <= end and lies within the input's lines.",
+  "Numbers above 256 are not substituted into array-size/range/const positions (legal but legitimately enormous programs); corpus programs that themselves need > 250 ms are left out and listed.", "DESIGN.md §4 C07")
+
 NOT_YET = {
 }
 
